@@ -9,7 +9,7 @@ VERUS = os.environ.get("VERIF_VERUS", "verus")
 
 def run_verus(path, rlimit=None, seed=None, timeout=900, extra=()):
     cmd = [VERUS, os.path.basename(path), "--output-json", "--time", "--multiple-errors", "40",
-           "--error-format=json"]
+           "--error-format=json", "--triggers-mode", "silent"]
     if rlimit:
         cmd += ["--rlimit", str(rlimit)]
     if seed is not None:
